@@ -156,6 +156,12 @@ func genDoc() *dDoc {
 			np = 1 + zzverif.Choose("params", 2)
 		}
 		types := []dParam{{typ: "int"}, {typ: "string", container: "list"}}
+		if zzverif.Param("PTYPES", 0) == 1 {
+			// every parameter type and every container/element combination
+			scalars := []string{"bool", "string", "int", "uint", "double", "duration", "timestamp", "ipaddress"}
+			types[0] = dParam{typ: scalars[zzverif.Choose("scalar", len(scalars))]}
+			types[1] = dParam{typ: scalars[zzverif.Choose("element", len(scalars))], container: []string{"list", "map"}[zzverif.Choose("container", 2)]}
+		}
 		for j := 0; j < np; j++ {
 			p := types[j]
 			p.name = zzverif.Str("param", 1, 1, "x-y")
@@ -208,7 +214,11 @@ func docDuplicates(d *dDoc) (relDup, condDup, paramDup, badExtend, repeatedExten
 }
 
 var verifParamTypes = map[string]openfgav1.ConditionParamTypeRef_TypeName{"int": openfgav1.ConditionParamTypeRef_TYPE_NAME_INT,
-	"string": openfgav1.ConditionParamTypeRef_TYPE_NAME_STRING, "list": openfgav1.ConditionParamTypeRef_TYPE_NAME_LIST, "map": openfgav1.ConditionParamTypeRef_TYPE_NAME_MAP}
+	"string": openfgav1.ConditionParamTypeRef_TYPE_NAME_STRING, "list": openfgav1.ConditionParamTypeRef_TYPE_NAME_LIST, "map": openfgav1.ConditionParamTypeRef_TYPE_NAME_MAP,
+	"bool": openfgav1.ConditionParamTypeRef_TYPE_NAME_BOOL, "uint": openfgav1.ConditionParamTypeRef_TYPE_NAME_UINT, "double": openfgav1.ConditionParamTypeRef_TYPE_NAME_DOUBLE,
+	"duration": openfgav1.ConditionParamTypeRef_TYPE_NAME_DURATION, "timestamp": openfgav1.ConditionParamTypeRef_TYPE_NAME_TIMESTAMP, "ipaddress": openfgav1.ConditionParamTypeRef_TYPE_NAME_IPADDRESS}
+
+var verifParamNames = map[openfgav1.ConditionParamTypeRef_TypeName]string{}
 
 // checkModelIsReading asserts that model m is exactly what document d says.
 func checkModelIsReading(d *dDoc, m *openfgav1.AuthorizationModel, ext map[string]*openfgav1.TypeDefinition) {
@@ -377,10 +387,18 @@ func docFromModel(m *openfgav1.AuthorizationModel) *dDoc {
 		mSortStrings(pn)
 		for _, p := range pn {
 			ref := c.GetParameters()[p]
+			nameOf := func(t openfgav1.ConditionParamTypeRef_TypeName) string {
+				for n, v := range verifParamTypes {
+					if v == t {
+						return n
+					}
+				}
+				return "?"
+			}
 			if len(ref.GetGenericTypes()) > 0 {
-				dc.params = append(dc.params, dParam{name: p, typ: "string", container: "list"})
+				dc.params = append(dc.params, dParam{name: p, typ: nameOf(ref.GetGenericTypes()[0].GetTypeName()), container: nameOf(ref.GetTypeName())})
 			} else {
-				dc.params = append(dc.params, dParam{name: p, typ: "int"})
+				dc.params = append(dc.params, dParam{name: p, typ: nameOf(ref.GetTypeName())})
 			}
 		}
 		d.conds = append(d.conds, dc)
